@@ -16,6 +16,8 @@ CONSTANTS
   StaleOverwrite = FALSE
   NoneTimeoutRejected = FALSE
   NoDeadSkip = FALSE
+  LateClosed = FALSE
+  PDFree = TRUE
   Hist = FALSE
 INVARIANT TypeOK
 INVARIANT Inv_AllDead
